@@ -357,10 +357,9 @@ class IPVPNBase(Label):
         return not self.__eq__(other)
 
     def __hash__(self) -> int:
-        # _packed includes everything (labels + RD); use _has_addpath as discriminator
-        if self._has_addpath:
-            return hash(self._packed)
-        return hash(b'disabled' + self._packed)
+        # __eq__ compares index(), which leaves the labels out: the hash has to be a function of the same bytes,
+        # or two routes which compare equal land in different buckets of a set or dict
+        return hash(self.index())
 
     def __copy__(self) -> Self:
         new = self.__class__.__new__(self.__class__)
